@@ -50,6 +50,8 @@ type pipeP struct {
 	Multi bool   `json:"multi,omitempty"`
 	N     int    `json:"n"`
 	Net   bool   `json:"net,omitempty"`
+	// Script replaces the PRNG burst
+	Script []gen.Op `json:"script,omitempty"`
 }
 
 func mk(id, kind string, seed uint64, p any) core.CaseDesc {
@@ -86,6 +88,14 @@ func (eng) Cases(seed uint64, tier string) []core.CaseDesc {
 			}
 		}
 	}
+	// directed: forwarded calls without args (auto transitions) reach a parked
+	// target as [Add X, Remove X, ..., Add X]: the last one must not be taken
+	// for a duplicate of the first
+	c := ss.ConnectedStates
+	cs = append(cs, mk("pipe/bindconnected/busy-dedup", "pipe", seed, pipeP{Bind: "bindconnected", Sched: "busy", Script: []gen.Op{
+		{Kind: "add", States: []string{"Start"}}, {Kind: "add", States: []string{c.Disconnecting}}, {Kind: "remove", States: []string{c.Disconnecting}},
+		{Kind: "add", States: []string{c.Disconnecting}}, {Kind: "remove", States: []string{c.Disconnecting}},
+	}}))
 	for _, b := range []string{"bind", "bindmany", "flat", "bindany"} {
 		for _, s := range []string{"natural", "overtake"} {
 			for r := 0; r < netReps; r++ {
@@ -490,13 +500,20 @@ func runPipe(res *core.CaseResult, c core.CaseDesc, p pipeP) {
 	}
 	// the burst
 	var ops []opRec
-	for i := 0; i < p.N; i++ {
+	n := p.N
+	if p.Script != nil {
+		n = len(p.Script)
+	}
+	for i := 0; i < n; i++ {
 		st := s.toggle[r.IntN(len(s.toggle))]
 		kind := []string{"add", "remove", "toggle"}[r.IntN(3)]
 		if st == am.StateException {
 			kind = []string{"adderr", "remove"}[r.IntN(2)]
 		}
 		op := gen.Op{Kind: kind, States: []string{st}}
+		if p.Script != nil {
+			op = p.Script[i]
+		}
 		t0 := time.Now()
 		var rs am.Result
 		var uid string
@@ -525,6 +542,16 @@ func runPipe(res *core.CaseResult, c core.CaseDesc, p pipeP) {
 		if p.Bind != "bindconnected" && rs == am.Canceled {
 			res.Violate("C18/source-canceled/"+p.Bind+"/"+tkind, fmt.Sprintf("source %s returned Canceled (op %d of %d; source err: %v; target err: %v)", op, i, p.N, s.source.Err(), s.target.Err())+" ops="+opsStr(ops)+" source txs="+txStr(s.str)+fmt.Sprintf(" active=%v", s.source.ActiveStates(nil)), nil)
 			return
+		}
+		if p.Script != nil {
+			// scripted: every forwarded call arrives before the next source
+			// mutation, so the calls reach the (parked) target in source order
+			for k := 0; k < 1000; k++ {
+				if arrived, _ := s.tapi.counts(); arrived >= s.expectedForwards() {
+					break
+				}
+				time.Sleep(2 * time.Millisecond)
+			}
 		}
 		// ... nor breaks it: a pipe handler that blocks ends in a handler timeout
 		if p.Bind != "binderr" && s.source.IsErr() {
